@@ -21,7 +21,7 @@ import jax.numpy as jnp
 
 from ..core import obligation
 from ..jxh import Case
-from ..sym import Le, Lt, Eq, v_abs, v_lt, v_le, v_sub, v_add, v_mul, v_sum, flat, sym_array, toz
+from ..sym import Le, Lt, Eq, Holds, v_abs, v_lt, v_le, v_and, v_or, v_sub, v_add, v_mul, v_sum, flat, sym_array, toz
 
 P = 'C03'
 EPS = 2.0 ** -52
@@ -248,7 +248,7 @@ def o3(h):
     FS, I, QR, M, S = _mods()
     h.encoded(QR.create_quadrature_rule_on_triangle, QR.create_quadrature_rule_1D)
     h.bounds('triangle rules requested with degree 0..10, 1-D rules degree 0..25; tolerance %g ulp of sum_q |w_q| (1/2 resp. 1)' % ULPS)
-    h.outside(*OUTSIDE, 'create_padded_quadrature_rule_1D (jit helper with padded tables; not used by FunctionSpace)')
+    h.outside(*OUTSIDE)      # the padded jit-able 1-D factory is O12
     h.assume_note(COMPOSITION)
     eps = Fr(EPS)
     pw = lambda x, k: x ** k if k > 0 else Fr(1)
@@ -1440,3 +1440,183 @@ def o11(h):
                                         name='vertex_rows_are_the_integer_input_coordinates'))
                     return box(i['X']), atoms
                 c.prove('ELV[%s]' % lab, spec, cap=40, order=('core',))
+
+
+# ------------------------------------------------------------------------------------------ padded 1-D rule (jit-able factory, lax.switch on the degree)
+def _install_rounding_prims():
+    """ceil / floor / round for vf.jx (local, only if absent): exact on numbers and ground numerals, z3 ToInt on symbolic reals"""
+    import z3
+    from .. import jx
+    from ..sym import isz
+
+    def mk(kind):
+        def f(ctx, P, iv):
+            even = kind == 'round' and int(P.get('rounding_method', 0)) == 1
+
+            def one(a):
+                if isz(a):
+                    g = jx.ground_num(ctx, a) if ctx.ground else None
+                    if g is None:
+                        fl = lambda t: z3.ToInt(t)
+                        if kind == 'floor':
+                            return z3.ToReal(fl(a))
+                        if kind == 'ceil':
+                            return z3.ToReal(-fl(-a))
+                        half = a + z3.RealVal(1) / 2
+                        r = fl(half)
+                        if even:     # ties to even
+                            return z3.ToReal(z3.If(z3.And(z3.ToReal(r) == half, r % 2 == 1), r - 1, r))
+                        return z3.ToReal(z3.If(a >= 0, r, -fl(-a + z3.RealVal(1) / 2)))     # ties away from zero
+                    a = g
+                x = Fr(a)
+                if kind == 'floor':
+                    return float(math.floor(x))
+                if kind == 'ceil':
+                    return float(math.ceil(x))
+                r = math.floor(x + Fr(1, 2))
+                if even:
+                    if Fr(r) == x + Fr(1, 2) and r % 2 == 1:
+                        r -= 1
+                    return float(r)
+                return float(r if x >= 0 else -math.floor(-x + Fr(1, 2)))
+            return jx.ew(one, iv[0])
+        return f
+    for kind in ('ceil', 'floor', 'round'):
+        jx.ELEMENTWISE.setdefault(kind, mk(kind))
+
+
+@obligation(P, 'O12.padded_1d_rule', cap=200)
+def o12(h):
+    """QuadratureRule.create_padded_quadrature_rule_1D (the jit-able factory: lax.switch on the stated degree): for every
+    stated degree 0..9, eagerly (ground) AND with a TRACED degree (the switch index expression and all five branches are
+    encoded; the branch is selected by the code's own index arithmetic): moments sum_q w_q x_q^k = 1/(k+1) for all
+    k <= degree, weights >= 0 (padding entries carry zero weight), points in [0,1]"""
+    install_case_split()
+    _install_rounding_prims()
+    FS, I, QR, M, S = _mods()
+    h.encoded(QR.create_padded_quadrature_rule_1D, QR._gauss_quad_1D_1pt, QR._gauss_quad_1D_2pt, QR._gauss_quad_1D_3pt, QR._gauss_quad_1D_4pt, QR._gauss_quad_1D_5pt)
+    h.bounds('stated degree 0..9 (5 padded points; degree >= 10 is beyond the five tabulated branches); tolerance %g ulp of sum_q |w_q| = 1; traced case: degree a free real '
+             'constrained to each integer 0..9 in turn' % ULPS)
+    h.outside(*OUTSIDE, 'stated degrees >= 10 (the switch index is clamped to the 5-point rule, exact to degree 9 only)', 'non-integer degrees')
+    h.assume_note(COMPOSITION, 'ceil/floor/round are encoded with z3 ToInt (round: ties to even / away from zero as the primitive says); float -> int conversion of the '
+                  'already integral value is the identity')
+    eps = Fr(EPS)
+    pw = lambda x, k: x ** k if k > 0 else Fr(1)
+    for d in range(0, 10):
+        qr = QR.create_padded_quadrature_rule_1D(d)
+        x = [F(v) for v in onp.asarray(qr.xigauss, dtype=float)]
+        w = [F(v) for v in onp.asarray(qr.wgauss, dtype=float)]
+        worst, at = Fr(0), None
+        for k in range(d + 1):
+            e = abs(sum(w[q] * pw(x[q], k) for q in range(len(w))) - Fr(1, k + 1))
+            if e > worst:
+                worst, at = e, k
+        ok = len(w) == 5 == len(x) and worst <= ULPS * eps and all(v >= 0 for v in w) and all(0 <= p <= 1 for p in x)
+        ground(h, 'padded_line_moments_eager[degree%d]' % d, ok, '%d positive weights of 5, worst moment defect %.3g ulp at x^%s (allowed %g); weights >= 0, points in [0,1]'
+               % (sum(1 for v in w if v > 0), float(worst / eps), at, ULPS), dict(degree=d, defect_ulps=float(worst / eps), power=at))
+
+    # the five branch tables, mapped to [0,1] as the factory does, as exact rationals; which of them are exact up to which degree
+    tables = []
+    for b, fb in enumerate((QR._gauss_quad_1D_1pt, QR._gauss_quad_1D_2pt, QR._gauss_quad_1D_3pt, QR._gauss_quad_1D_4pt, QR._gauss_quad_1D_5pt)):
+        xb, wb = fb(None)
+        X = [(F(v) + 1) / 2 for v in onp.asarray(xb, dtype=float)]
+        Wt = [F(v) / 2 for v in onp.asarray(wb, dtype=float)]
+        deg = -1
+        while deg < 12 and abs(sum(Wt[q] * pw(X[q], deg + 1) for q in range(5)) - Fr(1, deg + 2)) <= ULPS * eps:
+            deg += 1
+        tables.append((X, Wt, deg))
+    ground(h, 'padded_branch_tables_exactness', [t[2] for t in tables] == [1, 3, 5, 7, 9], 'branch k (k+1 Gauss points) is exact to degree %s' % [t[2] for t in tables], {})
+    smp = lambda rng: [float(rng.integers(0, 10))]
+    c = Case(h, lambda degree: tuple(QR.create_padded_quadrature_rule_1D(degree)), dict(degree=3.0), sampler=smp, label='create_padded_quadrature_rule_1D(traced degree)')
+    for D in range(0, 10):
+        def spec(i, o, D=D):
+            xi, w = o
+            d = s0(i['degree'])
+            mom = []
+            for k in range(D + 1):
+                terms = []
+                for q in range(5):
+                    t = w[q]
+                    for _ in range(k):
+                        t = v_mul(t, xi[q])
+                    terms.append(t)
+                mom.append(v_abs(v_sub(v_sum(terms), Fr(1, k + 1))))
+            rng = []
+            for q in range(5):
+                rng += [v_sub(0.0, w[q]), v_sub(0.0, xi[q]), v_sub(xi[q], 1.0)]
+            # linear form of the same claim (no products of if-then-else terms): the returned padded table IS one of the branch tables that
+            # are exact up to the stated degree (4e-16 slack only so that the float replay of the mapped points compares equal)
+            sel = []
+            for X, Wt, deg in tables:
+                if deg >= D:
+                    sel.append(v_and(*[v_le(v_abs(v_sub(xi[q], X[q])), 4e-16) for q in range(5)], *[v_le(v_abs(v_sub(w[q], Wt[q])), 4e-16) for q in range(5)]))
+            atoms = [Holds(v_or(*sel), name='returned_table_is_a_branch_exact_to_stated_degree'),
+                     Le(rng, 0.0, name='weights_nonnegative_points_in_unit_interval', scale=SC)]
+            if D <= 6:
+                atoms.insert(0, Le(mom, TOL_W, name='moments_up_to_stated_degree', scale=SC))
+            return [v_le(float(D), d), v_le(d, float(D))], atoms
+        c.prove('padded_traced[degree=%d]' % D, spec, cap=30, order=('core',))
+
+
+# ------------------------------------------------------------------------------------------ element blocks given as index arrays
+THREE_EL_CONNS = [[0, 1, 2], [2, 3, 0], [4, 0, 3]]       # fan around node 0, three different cyclic starts
+
+
+@obligation(P, 'O13.block_index_arrays', cap=280)
+def o13(h):
+    """integrate_over_block / evaluate_on_block with NON-consecutive, unordered block index arrays ([0,2], [2,0], [1] on a
+    3-element mesh), every per-element array of the function space symbolic (vols, shapeGrads, state, nodal field,
+    coordinates): evaluate_on_block returns exactly the rows of the listed elements in the listed order (oracle: the
+    integrand written out per element, and the same function called with block=[e]), the integral is the sum over exactly
+    the listed elements of sum_q vols[e,q] f(e,q)"""
+    install_case_split()
+    FS, I, QR, M, S = _mods()
+    h.encoded(FS.integrate_over_block, FS.evaluate_on_block, FS.evaluate_on_element, FS.interpolate_to_element_points, FS.compute_element_field_gradient)
+    h.bounds('3-element P1 mesh %s (5 nodes), blocks [0,2], [2,0], [1], [0,1,2] (thorough: also [2,1], [1,0,2]); all reals: coordinates, nodal field (5x2), vols (3xnq), shapeGrads '
+             '(3xnqx3x2), state (3xnqx1); real P1 shape table of triangle rule 2; integrand f = u_0 x_1 + (grad u)_01 + state_0 - 3 u_1' % THREE_EL_CONNS)
+    h.outside(*OUTSIDE, 'blocks given as Python slices; duplicate indices')
+    h.assume_note(COMPOSITION)
+    qr = QR.create_quadrature_rule_on_triangle(2)
+    pe = parent(1, False)
+    sh = I.compute_shapes(pe, qr.xigauss)
+    Nt, nq = pyf(sh.values), len(qr)
+    mesh0 = M.construct_mesh_from_basic_data(jnp.zeros((5, 2)), jnp.array(THREE_EL_CONNS), {'block': jnp.arange(3)})
+    shapes = jnp.tile(sh.values, (3, 1, 1))
+    kern = lambda u, gu, st, x, dt: u[0] * x[1] + gu[0, 1] + st[0] - 3.0 * u[1]
+
+    def oracle(i, e, q):
+        X, U, G, st = i['X'], i['U'], i['G'], i['st']
+        cn = THREE_EL_CONNS[e]
+        u = [v_sum([v_mul(Nt[q][a], U[cn[a]][c]) for a in range(3)]) for c in range(2)]
+        x1 = v_sum([v_mul(Nt[q][a], X[cn[a]][1]) for a in range(3)])
+        g01 = v_sum([v_mul(U[cn[a]][0], G[e, q, a, 1]) for a in range(3)])
+        return v_sum([v_mul(u[0], x1), g01, st[e, q, 0], v_mul(-3.0, u[1])])
+    blocks = [[0, 2], [2, 0], [1], [0, 1, 2]] + ([[2, 1], [1, 0, 2]] if h.thorough() else [])
+    smp = lambda rng: [rng.normal(size=(5, 2)), rng.normal(size=(5, 2)), rng.normal(size=(3, nq)), rng.normal(size=(3, nq, 3, 2)), rng.normal(size=(3, nq, 1))]
+    ex = smp(onp.random.default_rng(40))
+    for blk in blocks:
+        def fn(X, U, V, G, st, blk=blk):
+            fs = FS.FunctionSpace(shapes, V, G, M.mesh_with_coords(mesh0, X), qr, False)
+            b = jnp.array(blk)
+            return (FS.evaluate_on_block(fs, U, st, 0.0, kern, b), FS.integrate_over_block(fs, U, st, 0.0, kern, b),
+                    [FS.evaluate_on_block(fs, U, st, 0.0, kern, jnp.array([e])) for e in blk],
+                    [FS.integrate_over_block(fs, U, st, 0.0, kern, jnp.array([e])) for e in blk])
+        tag = 'block=%s' % ''.join(str(e) for e in blk)
+        c = Case(h, fn, dict(X=ex[0], U=ex[1], V=ex[2], G=ex[3], st=ex[4]), sampler=smp, label='evaluate_on_block/integrate_over_block ' + tag)
+
+        def spec(i, o, blk=blk):
+            vals, integ, single_vals, single_int = o
+            V = i['V']
+            rows, orc, srows, tot = [], [], [], []
+            for r, e in enumerate(blk):
+                for q in range(nq):
+                    rows.append(vals[r, q])
+                    f = oracle(i, e, q)
+                    orc.append(f)
+                    srows.append(single_vals[r][0, q])
+                    tot.append(v_mul(V[e, q], f))
+            return [], [Eq(rows, orc, name='rows_are_the_listed_elements_in_listed_order'),
+                        Eq(rows, srows, name='rows_eq_single_element_blocks'),
+                        Eq(s0(integ), v_sum(tot), name='integral_eq_sum_over_listed_elements_of_vols_f'),
+                        Eq(s0(integ), v_sum([s0(x) for x in single_int]), name='integral_eq_sum_of_single_element_integrals')]
+        c.prove('BLK[%s]' % tag, spec, cap=40)
